@@ -237,7 +237,7 @@ pub fn item_value(r: Result<Option<Value>, lexpr::parse::Error>) -> String {
     match r {
         Ok(Some(v)) => format!("val {}", enc_value(&v)),
         Ok(None) => "none".into(),
-        Err(e) => err_code(&e),
+        Err(e) => err_item(e),
     }
 }
 
@@ -249,7 +249,7 @@ pub fn item_datum(r: Result<Option<lexpr::Datum>, lexpr::parse::Error>) -> Strin
             format!("dat {} @ {}", enc_value(d.value()), info.join(" "))
         }
         Ok(None) => "none".into(),
-        Err(e) => err_code(&e),
+        Err(e) => err_item(e),
     }
 }
 
@@ -263,7 +263,7 @@ fn run_history<'de, R: lexpr::parse::Read<'de>>(mut p: Parser<R>, api: &str) -> 
             b'D' => item_datum(p.expect_datum().map(Some)),
             b'e' => match p.expect_end() {
                 Ok(()) => "unit".into(),
-                Err(e) => err_code(&e),
+                Err(e) => err_item(e),
             },
             b'i' => item_value(p.value_iter().next().transpose()),
             b'j' => item_datum(p.datum_iter().next().transpose()),
